@@ -113,5 +113,5 @@ func c14Wide(B int) {
 	rt.Reach("end")
 }
 
-func H_c14_wide_q() { c14Wide([]int{127, 128, 129}[rt.Choice("B", 3)]) }
+func H_c14_wide_q() { c14Wide([]int{127, 128, 129, 256}[rt.Choice("B", 4)]) }
 func H_c14_wide_t() { c14Wide([]int{127, 128, 129, 255, 256}[rt.Choice("B", 5)]) }
